@@ -74,6 +74,11 @@ var c16stats = map[string]int{}
 func runSeq(W, H int, ops []mop) {
 	img := &mono.MonoImg{}
 	img.NewImage(W, H)
+	runSeqOn(img, W, H, ops)
+}
+
+// runSeqOn: the canvas object is supplied (fresh, or USED before and re-initialised with NewImage)
+func runSeqOn(img *mono.MonoImg, W, H int, ops []mop) {
 	var opsx, bufs []Sx
 	for _, o := range ops {
 		opsx = append(opsx, Sx(o.sx))
@@ -325,6 +330,38 @@ func genC16(tier string, rng *Rng) {
 		st := rng.Intn(len(ops))
 		ops = append(ops[st:], ops[:st]...)
 		runSeqFrom(W, H, init, ops)
+	}
+	// 8. a USED object: drawn on with arbitrary settings at another size, then re-initialised with
+	//    NewImage(W, H); the sequence first sets the four settings NewImage does not reset (inversion,
+	//    cursor, text colour, spacing) and must then behave like on a fresh canvas - anything else the
+	//    object remembered (clip limits, cached geometry, a stale buffer) shows as a frame violation
+	nu := 400
+	if thorough {
+		nu = 4000
+	}
+	used := &mono.MonoImg{}
+	for n := 0; n < nu; n++ {
+		W0, H0 := rng.Range(0, 70), rng.Range(0, 20)
+		used.NewImage(W0, H0)
+		func() {
+			defer func() { recover() }()
+			for k := rng.Range(1, 6); k > 0; k-- {
+				randOp(rng, W0, H0).apply(used)
+			}
+			used.SetBoundingBox(rng.Range(-5, 20), rng.Range(-5, 9), rng.Range(-3, 40), rng.Range(-3, 20))
+		}()
+		W, H := rng.Range(0, 40), rng.Range(0, 12)
+		if n%3 == 0 {
+			W = rng.Pick([]int{1, 7, 8, 9, 16, 17, 33})
+		}
+		used.NewImage(W, H)
+		ops := []mop{opInv(rng.Intn(4) == 0), opCur(rng.Range(0, 5), rng.Range(0, 3)), opTcol(rng.Bool()), opSpc(rng.Range(0, 3))}
+		ops = append(ops, opFR(0, 0, W, H, rng.Bool()), opHL(-1, rng.Range(0, H), W+9, rng.Bool()), opPixel(W-1, H-1, true), opPixel(W, 0, true))
+		for k := rng.Range(2, 10); k > 0; k-- {
+			ops = append(ops, randOp(rng, W, H))
+		}
+		c16stats["used-object"]++
+		runSeqOn(used, W, H, ops)
 	}
 	meta(map[string]interface{}{"property": "C16", "op_histogram": c16stats})
 }
